@@ -23,6 +23,8 @@ for name in sorted(os.listdir(src)):
     d = os.path.join(src, name)
     if not os.path.exists(d + "/patch.diff"):
         continue
+    if own and not name.startswith("C"):
+        continue
     rc, out = sh("git -C %s apply %s/patch.diff" % (REPO, d))
     row = {"change": name, "applies": rc == 0, "results": {}, "alarms": []}
     if rc == 0:
@@ -36,8 +38,11 @@ for name in sorted(os.listdir(src)):
     sh("git -C %s checkout -- . ; git -C %s clean -fdq" % (REPO, REPO))
     rows.append(row)
     print(name, "applies" if row["applies"] else "DOES NOT APPLY", "tests", row.get("repo_tests_pass"), "alarms", row["alarms"], flush=True)
-json.dump(rows, open(HERE + "/benign/RESULTS.json", "w"), indent=1)
-with open(HERE + "/benign/RESULTS.md", "w") as f:
+out_name = "RESULTS-own" if own else "RESULTS"
+if "--out" in sys.argv:
+    out_name = sys.argv[sys.argv.index("--out") + 1]
+json.dump(rows, open(HERE + "/benign/%s.json" % out_name, "w"), indent=1)
+with open(HERE + "/benign/%s.md" % out_name, "w") as f:
     f.write("# Behaviour-preserving changes vs. quick checks\n\n| change | repo tests | checks run | alarms |\n|---|---|---|---|\n")
     for r in rows:
         f.write("| %s | %s | %d | %s |\n" % (r["change"], "pass" if r.get("repo_tests_pass") else "FAIL / n.a.", len(r["results"]), "; ".join("%s %s" % (c, " ".join(l)) for c, l in r["alarms"]) or "none"))
